@@ -110,7 +110,7 @@ Blame ==
   @@ "oe.res.publish" :> {"C09"} @@ "oe.res.bpublish" :> {"C09"} @@ "oe.res.bsubscribe" :> {"C09"} @@ "oe.res.bunsubscribe" :> {"C09"}
   @@ "oe.ready.publish" :> {"C09"} @@ "oe.actor.publish" :> {"C09"}
   @@ "un.flush" :> {"C12", "C02"} @@ "un.resp" :> {"C02"} @@ "un.await" :> {"C04", "C02"} @@ "un.join" :> {"C17", "C02"}
-  @@ "un.loop.closed" :> {"C05"} @@ "un.loop.closed.stream" :> {"C05", "C13"} @@ "un.loop.stream" :> {"C13"}
+  @@ "un.loop.closed" :> {"C05", "C03"} @@ "un.loop.closed.stream" :> {"C05", "C13", "C03"} @@ "un.loop.stream" :> {"C13"}
   @@ "un.loop.deq.mailbox" :> {"C02", "C05"} @@ "un.loop.deq.timer" :> {"C10"} @@ "un.loop.deq.parent" :> {"C16"} @@ "un.loop.deq.broker" :> {"C09"} @@ "un.loop.deq.ctx" :> {"C04"}
   @@ "un.loop" :> {"C02"} @@ "un.timer" :> {"C10"} @@ "un.adv" :> {"C10", "C11"}
   @@ "oe.cancel.send" :> {"C12"} @@ "oe.cancel.call" :> {"C02"} @@ "oe.cancel.ping" :> {"C02"} @@ "oe.cancel.join" :> {"C17"}
@@ -126,10 +126,10 @@ Blame ==
   @@ "adv.pending" :> {"C10", "C11"}
   @@ "blk.loop.closed.subscribed" :> {"C05", "C09"} @@ "q.loops.closed.subscribed" :> {"C05", "C09"} @@ "un.loop.closed.subscribed" :> {"C05", "C09"}
   @@ "blk.loop.closed.timers" :> {"C05", "C10"} @@ "q.loops.closed.timers" :> {"C05", "C10"} @@ "un.loop.closed.timers" :> {"C05", "C10"}
-  @@ "blk.loop.closed" :> {"C05"} @@ "blk.loop.closed.stream" :> {"C05", "C13"} @@ "blk.loop.stream" :> {"C13"}
+  @@ "blk.loop.closed" :> {"C05", "C03"} @@ "blk.loop.closed.stream" :> {"C05", "C13", "C03"} @@ "blk.loop.stream" :> {"C13"}
   @@ "blk.loop.deq.mailbox" :> {"C02", "C05"} @@ "blk.loop.deq.ctx" :> {"C04"} @@ "blk.loop.deq.timer" :> {"C10"}
   @@ "blk.loop.deq.parent" :> {"C16"} @@ "blk.loop.deq.broker" :> {"C09"}
-  @@ "q.loops.closed" :> {"C05"} @@ "q.loops.closed.stream" :> {"C05", "C13"} @@ "q.loops.stream" :> {"C13"}
+  @@ "q.loops.closed" :> {"C05", "C03"} @@ "q.loops.closed.stream" :> {"C05", "C13", "C03"} @@ "q.loops.stream" :> {"C13"}
   @@ "q.loops.deq.mailbox" :> {"C02", "C05"} @@ "q.loops.deq.ctx" :> {"C04"} @@ "q.loops.deq.timer" :> {"C10"}
   @@ "q.loops.deq.parent" :> {"C16"} @@ "q.loops.deq.broker" :> {"C09"}
   @@ "q.loops.deq.parent.sibfail" :> {"C16", "C06"} @@ "blk.loop.deq.parent.sibfail" :> {"C16", "C06"} @@ "un.loop.deq.parent.sibfail" :> {"C16", "C06"}
